@@ -1,4 +1,4 @@
-REPO_COMMITS = ["0e45a8e", "f51d74e", "e08c0a5", "7c6f8e4", "33cf0bf", "a187bb0", "a08c8ef", "a09d5b7", "0ea38a2", "2e5f874"]
+REPO_COMMITS = ["0e45a8e", "f51d74e", "e08c0a5", "7c6f8e4", "33cf0bf", "a187bb0", "a08c8ef", "a09d5b7", "0ea38a2", "2e5f874", "0a1ffee", "684d35f", "eafd2f0"]
 NOT_APPLICABLE = {}
 CHECKS = {
  "C05": dict(
@@ -33,4 +33,8 @@ CHECKS = {
   text="Held-on-what-was-observed: wrappers on sphdist and gcirc compare every returned separation with atan2(|a x b|, a.b) evaluated in long double from the same float64 inputs (tolerances 1e-11 / 2e-6 deg from the statement), check finiteness and range, and the driver checks symmetry, +360 invariance, exact zero for identical inputs and scalar-vs-array agreement on adversarial families (tiny, near/exactly antipodal, the 170-180 band around the formula switch, polar, seam) in every input form and unit combination.",
   note="Trusts numpy long-double trigonometry (80-bit on this host).",
   technique="API-boundary monitor with long-double geometric oracle; metamorphic relations in the driver"),
+ "C09": dict(
+  text="Held-on-what-was-observed: wrappers on euler (hence the six named conversions), eq2sdss, sdss2eq, eq2xyz, xyz2eq, shiftlon/shiftra judge every observed call on the sky against long-double reference rotations built from the documented pole/node constants (ranges, finiteness, unit length, congruence mod 360); the driver adds inverse round trips, isometry on point pairs, chained-vs-direct and rotate's proper-isometry/inverse checks, with rings down to 1e-9 deg from the poles of both the source and the target system.",
+  note="Trusts numpy long-double trigonometry. B1950 reference constants are the published definitions (not in the file); B1950 ecliptic<->galactic is the composition of the two reference rotations.",
+  technique="API-boundary monitor with long-double rotation-matrix oracle; metamorphic round-trip/isometry relations"),
 }
